@@ -1039,6 +1039,9 @@ func (self *LockManager) ProcessLockData(command *protocol.LockCommand, lock *Lo
 		}
 	case protocol.LOCK_DATA_COMMAND_TYPE_SHIFT:
 		lengthValue := int(lockCommandData.GetShiftLengthValue())
+		if currentLockData != nil && lengthValue > currentLockData.GetValueSize() {
+			lengthValue = currentLockData.GetValueSize()
+		}
 		if self.currentData != nil && self.currentData.GetData() != nil && lengthValue > 0 {
 			if lengthValue > len(currentLockData.data) {
 				lengthValue = len(currentLockData.data)
